@@ -32,3 +32,31 @@ let () =
   reg_ll "saad" (fun t ->
     let a = t_crs t in let b = t_crs t in let s = t_i t <> 0 in
     show_res show_mcrs (LowLevel2G.ll_spgemm sc (LowLevelT.flat_of sc a) (LowLevelT.flat_of sc b) s))
+
+let show_barr (a : bool marr) = "[" ^ String.concat " " (List.map (show_cell (fun b -> if b then "1" else "0")) a) ^ "]"
+let rec take n l = if n <= 0 then [] else match l with [] -> [] | x :: t -> x :: take (n - 1) t
+
+let () =
+  reg_ll "plain_aggregates" (fun t ->
+    let a = t_crs t in let _ = t_q t in let eps2 = t_q t in
+    show_res (function
+        | LowLevel2A.LAEmpty -> "EXC empty_level"
+        | LowLevel2A.LAOk (c, id, st) -> Printf.sprintf "count=%d id=%s strong=%s" c (show_zarr id) (show_barr st))
+      (LowLevel2A.ll_plain_aggregates sc eps2 (LowLevelT.flat_of sc a)));
+  reg_ll "tentative" (fun t ->
+    let n = t_i t in let naggr = t_i t in let id = List.map Big_int_Z.big_int_of_int (t_ivec t) in
+    show_res show_mcrs (LowLevel2A.ll_tentative sc n naggr id));
+  reg "ll_ilu0" (fun t ->
+    let a = t_crs t in
+    let f = LowLevelT.flat_of sc a in
+    show_res (function
+        | LowLevel2I.EThrow Ilu.NoDiag -> "EXC no_diag"
+        | LowLevel2I.EThrow Ilu.ZeroPivot -> "EXC zero_pivot"
+        | LowLevel2I.EOk st ->
+          let open LowLevel2I in
+          let n = f.LowLevel.fn in
+          Printf.sprintf "L=%s U=%s D=%s"
+            (show_flat n n st.ilp (take st.ilh st.ilc) (take st.ilh st.ilv))
+            (show_flat n n st.iup (take st.iuh st.iuc) (take st.iuh st.iuv))
+            (show_varr st.idd))
+      (LowLevel2I.ll_ilu0 sc f))
